@@ -79,6 +79,12 @@ func (e *Engine) intrinsic(st *State, fr *Frame, fn *ssa.Function, args []Value,
 			b[i] = c.Var(fmt.Sprintf("%s[%d]", tag, i), SBV(8))
 		}
 		return retExit(st, StrV{B: b}), true
+	case "nondetLen":
+		tag := e.nondetName(st, concreteString(args[0], name))
+		max := concreteInt(args[1], name)
+		ln := c.Var("len:"+tag, SBV(64))
+		st.assume(c.BVUle(ln, c.BV(uint64(max), 64)))
+		return retExit(st, ln), true
 	case "nondetBuffer":
 		tag := e.nondetName(st, concreteString(args[0], name))
 		max := concreteInt(args[1], name)
